@@ -1,10 +1,28 @@
 package expr
 
 import (
+	"errors"
 	"fmt"
+	"math"
 
+	"github.com/shopspring/decimal"
 	"github.com/verily-src/fhirpath-go/fhirpath/system"
 )
+
+// errDivideByZero is raised by the division operators when the divisor is zero.
+// FHIRPath defines the result of such a division to be empty ( { } ).
+var errDivideByZero = errors.New("division by zero")
+
+// isZero reports whether the divisor is an Integer or Decimal equal to zero.
+func isZero(rhs system.Any) bool {
+	switch right := rhs.(type) {
+	case system.Integer:
+		return right == 0
+	case system.Decimal:
+		return decimal.Decimal(right).IsZero()
+	}
+	return false
+}
 
 // EvaluateAdd takes in two system types, and calls the appropriate Add method.
 func EvaluateAdd(lhs, rhs system.Any) (system.Any, error) {
@@ -115,6 +133,9 @@ func EvaluateMul(lhs, rhs system.Any) (system.Any, error) {
 
 // EvaluateDiv takes in two system types, and calls the appropriate Div method.
 func EvaluateDiv(lhs, rhs system.Any) (system.Any, error) {
+	if isZero(rhs) {
+		return nil, errDivideByZero
+	}
 	switch left := lhs.(type) {
 	case system.Integer:
 		if right, ok := rhs.(system.Integer); ok {
@@ -141,9 +162,15 @@ func EvaluateDiv(lhs, rhs system.Any) (system.Any, error) {
 
 // EvaluateFloorDiv takes in two system types, and calls the appropriate FloorDiv method.
 func EvaluateFloorDiv(lhs, rhs system.Any) (system.Any, error) {
+	if isZero(rhs) {
+		return nil, errDivideByZero
+	}
 	switch left := lhs.(type) {
 	case system.Integer:
 		if right, ok := rhs.(system.Integer); ok {
+			if left == math.MinInt32 && right == -1 {
+				return nil, system.ErrIntOverflow
+			}
 			return left.FloorDiv(right), nil
 		}
 		if _, ok := rhs.(system.Quantity); ok {
@@ -167,6 +194,9 @@ func EvaluateFloorDiv(lhs, rhs system.Any) (system.Any, error) {
 
 // EvaluateMod takes in two system types, and calls the appropriate Mod method.
 func EvaluateMod(lhs, rhs system.Any) (system.Any, error) {
+	if isZero(rhs) {
+		return nil, errDivideByZero
+	}
 	switch left := lhs.(type) {
 	case system.Integer:
 		if right, ok := rhs.(system.Integer); ok {
